@@ -133,7 +133,7 @@ class Run:
                                # `unknown` on a quantified satisfiability query is not evidence of vacuity
                                "ok": sum(1 for g in guards if g.status == "refuted"),
                                "unknown": sum(1 for g in guards if g.status == "undecided"),
-                               "failed": [g.name for g in guards if g.status == "discharged"]},
+                               "failed": _failed_guards(guards)},
             "bounded": self.bounded,
             "not_covered": self.not_covered,
             "notes": self.notes,
@@ -168,6 +168,19 @@ class Run:
             print("  VACUITY GUARD FAILED: " + ", ".join(bad_guards))
             return 3
         return 1 if self.violations else 0
+
+
+def _failed_guards(guards):
+    """cover guards fail when proved unsat; exit canaries fail only when EVERY sampled exit path of the function is proved unreachable"""
+    failed = [g.name for g in guards if g.kind == "cover" and g.status == "discharged"]
+    by_fn = {}
+    for g in guards:
+        if g.kind == "canary":
+            by_fn.setdefault(g.name.split("/")[0], []).append(g)
+    for fn, gs in by_fn.items():
+        if all(g.status == "discharged" for g in gs):
+            failed.append(fn + "/canary:exit-reachable")
+    return failed
 
 
 def _slug(s: str) -> str:
